@@ -163,6 +163,12 @@ impl<M: MemBuilder> AnyVecRaw<M> {
 
         self.reserve_one();
 
+        // move_into may run user code (LazyClone clones on consumption) that can
+        // panic. Hide the shifted tail meanwhile, so a panic only leaks it,
+        // instead of leaving a bitwise duplicate of element `index` visible.
+        let len = self.len;
+        self.len = index;
+
         // Compile time type optimization
         if !Unknown::is::<V::Type>(){
             let element = self.mem.as_mut_ptr().cast::<V::Type>().add(index);
@@ -171,7 +177,7 @@ impl<M: MemBuilder> AnyVecRaw<M> {
             ptr::copy(
                 element,
                 element.add(1),
-                self.len - index
+                len - index
             );
 
             // 2. write value
@@ -184,14 +190,14 @@ impl<M: MemBuilder> AnyVecRaw<M> {
             crate::copy_bytes(
                 element,
                 element.add(element_size),
-                element_size * (self.len - index)
+                element_size * (len - index)
             );
 
             // 2. write value
             value.move_into::<V::Type>(element, element_size);
         }
 
-        self.len += 1;
+        self.len = len + 1;
     }
 
     /// # Safety
